@@ -102,3 +102,8 @@ def check(ctx):
     ctx.counters.update({"sites_" + k.replace("-", "_"): v for k, v in classes.items()})
     ctx.require_floor("R26.1", "reachable_functions", len(seen), 900)
     ctx.require_floor("R26.1", "panic_sites", sum(len(v) for v in found.values()), 100)
+
+    # R26.3: reviewed-safe entries that rest on another property's rule are re-evaluated here
+    # (the unwrap in Cfg::get_terminal_index_function cannot fire only while the lookup key equals the de-duplication key)
+    from . import c18
+    c18.check(ctx)
